@@ -6,7 +6,7 @@
 #include <map>
 
 enum CellState : uint8_t { CS_UNWRITTEN = 0, CS_FILL = 1, CS_VALUE = 2, CS_UNKNOWN = 3 };
-struct Cell { uint8_t st = CS_UNWRITTEN; int8_t writer = -1; uint8_t synced = 1; long long v = 0; };
+struct Cell { uint8_t st = CS_UNWRITTEN; uint8_t wmask = 0; /* ranks that wrote it since the last documented synchronisation */ long long v = 0; };
 
 struct MAtt { std::string name; int type = NC_INT; std::vector<long long> v; };
 struct MDim { std::string name; long long len = 0; };   // len == 0: the unlimited dimension
